@@ -292,10 +292,13 @@ pub fn run(ctx: &Ctx) -> Result<Run, String> {
         g.transitions += st.evaluations;
         g.stats.count("client_instance_differential_histories", st.evaluations);
         g.stats.merge(st);
+        let st = inst::colliding_sweep("shared-state");
+        g.transitions += st.evaluations;
+        g.stats.merge(st);
     }
     let mut run = Run::from_stats(
         "model_checking",
-        "explicit-state BFS over histories: register(rp in 2, user in 2) and authenticate(origin/RP in 4 incl. a sub-domain origin of the same RP and an RP without credentials, allow list in {absent, empty, [own], [unknown, own], [unknown], [credential of another RP], [unknown id with an unknown credential type]}, userVerification in {required, preferred, discouraged with and without the user verifying anyway}, client-data mode in 3) plus 10 challenges on two base assertions, from the empty and two seeded stores, on a real Client over the contract store; every assertion is verified by an independent relying party (ECDSA verify under the key derived from the stored scalar, client data, rpIdHash, flags, user handle). Plus the instance differential: the complete tree of histories to depth 3 (thorough 4) over {assertion with the seeded / no / an unknown / the first created credential, registration rk on/off, getInfo, a registration and an assertion dropped while the user step is pending} on ONE long-lived Authenticator against fresh Authenticators per operation, on the contract store, Arc<Mutex<MemoryStore>> and Arc<Mutex<Option<Passkey>>> (results and final store must agree), and the same for ONE long-lived Client against fresh Clients over {registration rk/credProps on two origins, authentication with the seeded / no / an unknown / the first created credential, with and without prf, a request refused for its RP id}. States are deduplicated on (RP, user handle, counter) per record in creation order; every transition is a distinct non-trivial real ceremony",
+        "explicit-state BFS over histories: register(rp in 2, user in 2) and authenticate(origin/RP in 4 incl. a sub-domain origin of the same RP and an RP without credentials, allow list in {absent, empty, [own], [unknown, own], [unknown], [credential of another RP], [unknown id with an unknown credential type]}, userVerification in {required, preferred, discouraged with and without the user verifying anyway}, client-data mode in 3) plus 10 challenges on two base assertions, from the empty and two seeded stores, on a real Client over the contract store; every assertion is verified by an independent relying party (ECDSA verify under the key derived from the stored scalar, client data, rpIdHash, flags, user handle). Plus the instance differential: the complete tree of histories to depth 3 (thorough 4) over {assertion with the seeded / no / an unknown / the first created credential, registration rk on/off, getInfo, a registration and an assertion dropped while the user step is pending} on ONE long-lived Authenticator against fresh Authenticators per operation, on the contract store, Arc<Mutex<MemoryStore>> and Arc<Mutex<Option<Passkey>>> (results and final store must agree), and the same for ONE long-lived Client against fresh Clients over {registration rk/credProps on two origins, authentication with the seeded / no / an unknown / the first created credential, with and without prf, a request refused for its RP id}. State shared between instances: on one fresh thread, three authenticators whose stores hold the SAME credential id with three different keys (two RPs) assert in turn, twice, and one key handle is U2F-registered, used, re-registered and used again; every signature must verify under the key its own store holds. States are deduplicated on (RP, user handle, counter) per record in creation order; every transition is a distinct non-trivial real ceremony",
         true,
         g.stats,
     );
@@ -311,6 +314,9 @@ pub fn replay(_ctx: &Ctx, case: &Value) -> Result<Vec<Finding>, String> {
         return Ok(fs);
     }
     if let Some(fs) = super::inst::client_replay(case, "instance") {
+        return Ok(fs);
+    }
+    if let Some(fs) = super::inst::colliding_replay(case, "shared-state") {
         return Ok(fs);
     }
     let init = case["init"].as_u64().unwrap_or(0) as usize;
